@@ -20,7 +20,7 @@
 (*            variable mapping of the frame of the class function (fields and    *)
 (*            `Class::method` function values), sharing its cells               *)
 (*   exports : file -> (name -> cell)  the export table of each bytecode file    *)
-(*   modcache : set of `file#__module__` paths whose module function has returned *)
+(*   modcache : set of `file#__module__` paths whose file has been loaded        *)
 (*   out    : Seq(STRING)   lines printed; pr : Seq(value) items printed         *)
 (*   st     : "run" | "halt" | "fail" | "oom"  (oom = instruction / value kind    *)
 (*            outside this model: the run is not judged)                          *)
@@ -39,9 +39,12 @@ Act(fi, args, cb) == [fi |-> fi, ip |-> 0, ops |-> <<>>, sp |-> 0, args |-> args
 FnFrame == [blk |-> FALSE, vars |-> NoFrame]
 BlkFrame == [blk |-> TRUE, vars |-> NoFrame]
 
-Boot(entry) == [acts |-> <<Act(entry, <<>>, NoCb)>>, frames |-> <<FnFrame>>, cells |-> <<>>, lists |-> <<>>, objs |-> <<>>,
+Boot0(entry) == [acts |-> <<Act(entry, <<>>, NoCb)>>, frames |-> <<FnFrame>>, cells |-> <<>>, lists |-> <<>>, objs |-> <<>>,
                 exports |-> NoFrame2, modcache |-> {},
                 out |-> <<>>, pr |-> <<>>, st |-> "run", why |-> ""]
+
+(* the entry file is loaded (and registered) before it runs *)
+BootF(F, entry) == [Boot0(entry) EXCEPT !.modcache = {F[entry].qn}]
 
 -----------------------------------------------------------------------------
 (* decimal literals of instruction arguments, inside TLC's 32-bit integers *)
@@ -304,8 +307,7 @@ Exec1(F, m) ==
             ELSE Return(m, n = 1, IF n = 1 THEN TopV(a) ELSE VNil, BlocksOnTop(m.frames, Len(m.frames)) + 1)
       [] op = "ret_mod" ->
             IF n # 0 THEN FailM(m, "machine")
-            ELSE LET r == Return(m, Len(m.acts) > 1, VMod(F[a.fi].file), BlocksOnTop(m.frames, Len(m.frames)) + 1) IN
-                 [r EXCEPT !.modcache = @ \cup {F[a.fi].qn}]
+            ELSE Return(m, Len(m.acts) > 1, VMod(F[a.fi].file), BlocksOnTop(m.frames, Len(m.frames)) + 1)
       [] op = "make_vector" ->
             IF Len(ar) = 0 THEN [SetTop(m, Adv([a EXCEPT !.ops = <<VList(Len(m.lists) + 1)>>])) EXCEPT !.lists = Append(@, DerefAll(m, a.ops))]
             ELSE [SetTop(m, Adv(PushV(a, VList(Len(m.lists) + 1)))) EXCEPT !.lists = Append(@, <<>>)]
@@ -357,7 +359,11 @@ Exec1(F, m) ==
             IF a1 \in m.modcache THEN
                  LET fi == FnIndex(F, a1) IN SetTop(m, Adv([a EXCEPT !.ops = <<VMod(F[fi].file)>>]))
             ELSE LET fi == FnIndex(F, a1) IN
-                 IF fi = 0 THEN OomM(m, "module " \o a1) ELSE Enter(m, [a EXCEPT !.ops = <<>>], fi, a.ops, NoCb)
+                 \* the file (with its still empty export table) is registered when it is loaded, i.e. before its module
+                 \* function runs: an import of a module that is being initialised is a cache hit (circular imports
+                 \* see the exports made so far)
+                 IF fi = 0 THEN OomM(m, "module " \o a1)
+                 ELSE [Enter(m, [a EXCEPT !.ops = <<>>], fi, a.ops, NoCb) EXCEPT !.modcache = @ \cup {a1}]
       [] op = "split_lookup_store" ->  \* `import a, b from m`: fresh local variables holding copies of the exported values
             IF n = 0 \/ TopV(a).t # "mod" THEN FailM(m, "machine")
             ELSE LET ex == ExportsOf(m, TopV(a).file)
